@@ -84,6 +84,7 @@ impl Grid {
         }
         let mut w = w;
         if w == 2 && self.c + 1 >= self.cols {
+            crate::runner::note_wide_gap();
             if self.cols >= 2 {
                 // a wide character that does not fit wraps early
                 self.line_feed();
@@ -575,21 +576,37 @@ impl TermLike for VTerm {
     }
 }
 
-/// Reference wrapping: the rows a line of text occupies on a terminal `cols` wide
-/// (single-width characters and zero-width SGR sequences only).
+/// Reference wrapping: the rows a line of text occupies on a terminal `cols` wide (zero-width SGR
+/// sequences dropped; a double-width character that does not fit the rest of a row wraps early, as
+/// on a real terminal - such cases are flagged, see `runner::take_wide_gap`).
 pub fn wrap_rows(line: &str, cols: usize) -> Vec<String> {
     let stripped = console::strip_ansi_codes(line);
-    let chars: Vec<char> = stripped.chars().collect();
-    if chars.is_empty() {
-        return vec![String::new()];
+    let mut rows: Vec<String> = vec![];
+    let mut cur = String::new();
+    let mut used = 0usize;
+    for ch in stripped.chars() {
+        let w = ch.width().unwrap_or(0);
+        if w > cols && cols > 0 {
+            crate::runner::note_wide_gap();
+        }
+        if w > 0 && used + w > cols && used > 0 {
+            if used < cols {
+                crate::runner::note_wide_gap();
+            }
+            rows.push(std::mem::take(&mut cur));
+            used = 0;
+        }
+        cur.push(ch);
+        used += w;
+        if used >= cols {
+            rows.push(std::mem::take(&mut cur));
+            used = 0;
+        }
     }
-    chars
-        .chunks(cols)
-        .map(|c| {
-            let s: String = c.iter().collect();
-            s.trim_end_matches(' ').to_string()
-        })
-        .collect()
+    if !cur.is_empty() || rows.is_empty() {
+        rows.push(cur);
+    }
+    rows.into_iter().map(|r| r.trim_end_matches(' ').to_string()).collect()
 }
 
 pub fn self_test() -> Result<(), String> {
